@@ -165,6 +165,8 @@ where
         match self.obj2count.entry(Rc::clone(&rc)) {
             Entry::Occupied(mut o) => {
                 // it is => increase exact counter
+                #[cfg(feature = "verif_hooks")]
+                crate::verif::hit(crate::verif::Event::HeapKnown);
                 let n = o.get_mut();
                 *n += 1;
 
@@ -181,6 +183,8 @@ where
                 // it's not => check capicity
                 if size < self.k {
                     // space left => add to top k
+                    #[cfg(feature = "verif_hooks")]
+                    crate::verif::hit(crate::verif::Event::HeapRoom);
                     debug_assert!(count == 1);
                     v.insert(1);
                     self.tree.insert(TreeEntry {
@@ -194,6 +198,12 @@ where
                     // because we've updated the CountMinSketch before the query
 
                     let min: TreeEntry<T> = (*self.tree.iter().next().unwrap()).clone();
+                    #[cfg(feature = "verif_hooks")]
+                    crate::verif::hit(if count > min.n {
+                        crate::verif::Event::HeapDisplace
+                    } else {
+                        crate::verif::Event::HeapReject
+                    });
                     if count > min.n {
                         // => kick out minimal element of top k
                         self.tree.remove(&min);
